@@ -25,7 +25,7 @@ SAN = {
 COMMON = ["-g", "-O1", "-fno-omit-frame-pointer", "-fno-builtin-memcpy", "-fno-builtin-memmove",
           "-fno-builtin-strlen", "-D_GNU_SOURCE", "-DQLIBC_VERIF"]
 WRAPS = ["malloc", "calloc", "realloc", "strdup", "free", "pthread_mutex_trylock",
-         "pthread_mutex_unlock", "usleep", "popen"]
+         "pthread_mutex_unlock", "usleep", "popen", "qstrreplace"]
 
 
 def sha(*parts):
